@@ -11,6 +11,7 @@
 #include <map>
 #include <string>
 #include <vector>
+#include <type_traits>
 #include <algorithm>
 
 namespace verif {
@@ -103,4 +104,16 @@ private:
         else if (magic != SHELL) reg().fail("NOT_OBJECT");
     }
 };
+
+// The same element type, but its move constructor and move assignment are NOT noexcept (like a hand-written `T(T&&)` or
+// libstdc++'s std::deque): code that asks std::move_if_noexcept / is_nothrow_move_constructible takes its other branch.
+struct TrackedM : Tracked {
+    using Tracked::Tracked;
+    TrackedM() = default;
+    TrackedM(const TrackedM &o) : Tracked(static_cast<const Tracked &>(o)) {}
+    TrackedM(TrackedM &&o) : Tracked(static_cast<Tracked &&>(o)) {}
+    TrackedM &operator=(const TrackedM &o) { Tracked::operator=(static_cast<const Tracked &>(o)); return *this; }
+    TrackedM &operator=(TrackedM &&o) { Tracked::operator=(static_cast<Tracked &&>(o)); return *this; }
+};
+static_assert(!std::is_nothrow_move_constructible_v<TrackedM> && std::is_copy_constructible_v<TrackedM>, "TrackedM: throwing move, copyable");
 } // namespace verif
